@@ -93,7 +93,7 @@ def run(ctx, pid):
         census.check(ctx, pid + '.ref', f.lstrip('+~!').split('@')[0])
 
 
-def requires(ctx, rule, name, sink_pat, atom_pat, text, history=None, forbid=False):
+def requires(ctx, rule, name, sink_pat, atom_pat, text, history=None, forbid=False, some=False):
     """Explicit obligation on top of the reference: every effect / exit of `name` whose label matches `sink_pat` is control
     dependent on a condition matching `atom_pat` (or, with forbid, on none).  Uses the options of the function's table entry."""
     import re as _re
@@ -108,5 +108,8 @@ def requires(ctx, rule, name, sink_pat, atom_pat, text, history=None, forbid=Fal
     if not hits:
         ctx.ob(rule, name, text, False, problem='no effect / exit matching %s' % sink_pat, failing_history=history)
         return
-    ok = all(any(_re.search(atom_pat, a) for a in e['full']) != forbid for e in hits)
+    if some:       # at least one exit / effect with this label is triggered by the condition (the label has several causes)
+        ok = any(any(_re.search(atom_pat, a) for a in e.get('trigger', [])) for e in hits)
+    else:
+        ok = all(any(_re.search(atom_pat, a) for a in e['full']) != forbid for e in hits)
     ctx.ob(rule, name, text, ok, effects=len(hits), failing_history=None if ok else history)
